@@ -701,7 +701,7 @@ def monitor_wf(ctx, worlds, results):
         ctx.broken.append({"kind": "monitor", "name": "M-wf", "detail": str(e)[-800:]})
 
 
-def py_monitor_fallback(ctx, worlds, results, maximal=False):
+def py_monitor_fallback(ctx, worlds, results, maximal=False, release_clause=False):
     """Pure-Python search for a failing input, used when the Coq side is broken: joint capacity at every
     integer instant, deadlines, precedence (chosen runtime), start >= now, one answer per task — on the solver's own
     answer and on every adversarial probe of the live model."""
@@ -715,7 +715,7 @@ def py_monitor_fallback(ctx, worlds, results, maximal=False):
     st = ctx.cov["streams"].setdefault("python-fallback", {"cases": 0, "failing": 0})
     for i, inst, exp, origin in all_plans_of(results, probe_kinds=(["c14"] if maximal else None)):
         st["cases"] += 1
-        msg = py_check_exp(inst, exp)
+        msg = py_check_exp(inst, exp, release_clause=release_clause)
         if not msg and maximal:
             msg = py_maximal(inst, exp)
         if msg:
@@ -734,7 +734,7 @@ def py_check(inst, r):
     return py_check_exp(inst, exp)
 
 
-def py_check_exp(inst, exp):
+def py_check_exp(inst, exp, release_clause=False):
     now = inst["now"]
     occ = []
     placed = {}
@@ -747,6 +747,8 @@ def py_check_exp(inst, exp):
         s = t["strats"][p[1]]
         if p[2] < now:
             return "start before now"
+        if release_clause and t.get("release") is not None and t["release"] >= 0 and p[2] < t["release"]:
+            return "task %s starts at %d, before its known release %d" % (t["name"], p[2], t["release"])
         if inst["enforce"] and p[2] + s[0] > t["deadline"]:
             return "task %s placed at %d with runtime %d misses its deadline %d" % (t["name"], p[2], s[0], t["deadline"])
         occ.append((p[0], p[2], p[2] + s[0], dict(s[1])))
@@ -882,4 +884,5 @@ def run(ctx):
                       "start >= now and >= release, or joint capacity (with running tasks at their remaining time) at some instant")
     ctx.cov["input_distribution"]["plans_monitored"] = n
     if ctx.broken:
-        py_monitor_fallback(ctx, worlds, results)
+        # (C10 names the release clause: a start before the task's known release is a C10 violation)
+        py_monitor_fallback(ctx, worlds, results, release_clause=True)
